@@ -26,7 +26,7 @@ SCALE = 1024          # coefficient tokens handed to the Lean model: coef * SCAL
 SEG_LETTERS = set('CLOVFGJSbrkKxd')
 INV_OPC = {v: k for k, v in nlgen.OPC.items()}
 VARIADIC = ('sum', 'min', 'max')
-N_THEOREMS = 42
+N_THEOREMS = 44
 # vptr excluded: mp's CRTP base constructors downcast `this` before the derived object exists (flat/converter.h:51),
 # which UBSan's vptr check reports on every run; unrelated to this property
 SAN_FLAGS = ('-O1', '-g', '-fsanitize=address,undefined', '-fno-sanitize=vptr', '-fno-sanitize-recover=all')
@@ -1031,6 +1031,7 @@ OBLIGATION_ORACLE = {
     'C12_gen_skel_caseO': r'select:|run:abnormal', 'C12_gen_skel_caseG': r'select:|run:abnormal', 'C12_gen_skel_delivery': r'select:|echo:',
     'C12_gen_skel_SetObjNames': r'name:',
     'C12_gen_skel_Convert_objective': r'select:',
+    'C12_gen_skel_sort_terms': r'select:',
 }
 
 
